@@ -26,6 +26,8 @@ import (
 type schedDTO struct {
 	HasScheduledTick bool   `json:"has_scheduled_tick"`
 	NextTickTime     uint64 `json:"next_tick_time"`
+	HasHandledTick   bool   `json:"has_handled_tick"`
+	LastHandledTime  uint64 `json:"last_handled_time"`
 }
 
 type compDTO struct {
@@ -172,7 +174,8 @@ func payloadView(kind string, data []byte) string {
 			return "PMalformed"
 		}
 		return hx.App("PComp", hx.Str(d.SpecHash), stateView(d.State),
-			hx.B(d.Scheduler.HasScheduledTick), hx.N(d.Scheduler.NextTickTime))
+			hx.B(d.Scheduler.HasScheduledTick), hx.N(d.Scheduler.NextTickTime),
+			hx.B(d.Scheduler.HasHandledTick), hx.N(d.Scheduler.LastHandledTime))
 	case "evcomp":
 		var d evcompDTO
 		if !dec(&d) {
